@@ -4,7 +4,7 @@
 EXTENDS UnitsAlgebra, TraceIO, KnownFindings
 VARIABLES l, fam, red
 Init == l = 1 /\ fam = <<>> /\ red = <<>>
-Cmp(x, y) == red[x].ok /\ red[y].ok /\ red[x].base = red[y].base
+Cmp(x, y) == red[x].ok /\ red[y].ok /\ Total(red[x]) = Total(red[y])
 FLog(x, y) == red[y].log - red[x].log
 BothExact(x, y) == red[x].exact /\ red[y].exact
 ColProblems(a, c) ==
@@ -21,6 +21,9 @@ VColProblems(a, c) ==
     LET b == c.b IN
     \* claimed for fully defined units only (an undefined reference is reported by the validator under another rule)
     (IF (red[a].ok /\ red[b].ok) => (c.mismatch = ~Cmp(a, b)) THEN {} ELSE {"validator verdict for connected variables differs from compatible()"})
+    \* the scale mismatch that the validator mentions next to a dimension mismatch is the ratio of the two units' scales
+    \* (claimed, like the factor itself, when prefixes and multipliers sit on children of exponent 1)
+    \cup (IF (red[a].ok /\ red[b].ok /\ c.mismatch /\ BothExact(a, b)) => (c.hint = ToString(red[a].log - red[b].log)) THEN {} ELSE {"validator reports another scale mismatch than the units give"})
 FirstBad(ev, P(_, _)) == CHOOSE k \in DOMAIN ev.cols : P(ev.a, ev.cols[k]) # {}
 Next == /\ l <= Len(TraceLog) /\ l' = l + 1
         /\ LET ev == TraceLog[l] IN
@@ -32,7 +35,7 @@ Next == /\ l <= Len(TraceLog) /\ l' = l + 1
                                    ELSE Verdict("bad", l, ev.sc, <<RowProblems(ev), ev.a, ev.cols[FirstBad(ev, ColProblems)].b>>)
              [] ev.e = "vrow" -> /\ UNCHANGED <<fam, red>>
                                  /\ IF \A k \in DOMAIN ev.cols : VColProblems(ev.a, ev.cols[k]) = {} THEN TRUE
-                                    ELSE Verdict("bad", l, ev.sc, <<"validator verdict for connected variables differs from compatible()", ev.a, ev.cols[FirstBad(ev, VColProblems)].b>>)
+                                    ELSE Verdict("bad", l, ev.sc, <<VColProblems(ev.a, ev.cols[FirstBad(ev, VColProblems)]), ev.a, ev.cols[FirstBad(ev, VColProblems)].b, ev.cols[FirstBad(ev, VColProblems)].hint, red[ev.a].log - red[ev.cols[FirstBad(ev, VColProblems)].b].log>>)
              [] OTHER -> UNCHANGED <<fam, red>> /\ Verdict("bad", l, ev.sc, ev.e)
 Spec == Init /\ [][Next]_<<l, fam, red>>
 Accepted == LET d == TLCGet("stats").diameter IN PrintT(<<"DEPTH", d>>) /\ d - 1 = Len(TraceLog)
